@@ -124,17 +124,20 @@ prop("C10", quick={"runs": 16000}, thorough={"runs": 100000000, "budget_s": 600}
 prop("C11", quick={"runs": 30000}, thorough={"runs": 100000000, "budget_s": 600},
      rule=BE_RULE + "Root-driven writes (never-expiring, fresh, recently expired, long expired) and clock jumps; the real janitor goroutine runs as a "
      "scheduled task whenever the simulated clock crosses DeleteExpiredJobInterval; after every jump that contained a cycle the surviving key set is "
-     "compared with the reference map. Non-trivial: at least one cleanup cycle ran; distinct = distinct (scenario, schedule).",
+     "compared with the reference map. A fifth of the runs rewrite long-expired keys while a cycle is walking the shards; another fifth are a concurrent phase "
+     "(writes with/without per-call TTL, deletes, DeleteAll, ExpireAll, janitor cycles in between) followed by quiet cleanup cycles in which nothing touches the cache "
+     "and the cycle is judged against a Walk snapshot. Non-trivial: at least one cleanup cycle ran; distinct = distinct (scenario, schedule).",
      rules=["C11.R1 wrongly-deleted (never-expiring / fresh / recently expired entry removed)", "C11.R2 not-deleted (long-expired entry kept although the scan is documented to run)"],
      probes=["janitor_met_never_expiring_entry", "janitor_met_fresh_entry", "janitor_met_recently_expired_entry", "janitor_deleted_long_expired_entry",
-             "unlimited_cache_with_explicit_ttl_cycle", "entry_without_expiry_restored", "entry_with_expiry_restored", "default_delete_expired_after", "fresh_write_during_cleanup_cycle"])
+             "unlimited_cache_with_explicit_ttl_cycle", "cleanup_cycle_during_concurrent_phase", "quiet_cycle_purged_long_expired_entry", "entry_without_expiry_restored", "entry_with_expiry_restored", "default_delete_expired_after", "fresh_write_during_cleanup_cycle"])
 prop("C12", quick={"runs": 6000}, thorough={"runs": 100000000, "budget_s": 600},
      rule=BE_RULE + "Root-driven fill of 1-400 entries around CountSoftLimit, access histories (reads at distinct simulated instants, rewrites), "
      "EvictionNeeded scripts, HeapInUseSoftLimit / SysMemSoftLimit at the two allocator-independent settings (1 byte: always exceeded, MaxUint64: never), "
-     "EvictFraction in (0,1], three strategies; the real janitor/eviction runs as a scheduled task. Non-trivial: at least one cycle.",
+     "EvictFraction in (0,1], three strategies; the real janitor/eviction runs as a scheduled task. A fifth of the runs: reads racing each other before an LRU/LFU cycle; "
+     "another fifth: a concurrent phase of writes / deletes with janitor cycles in between, then quiet cycles judged against Walk snapshots. Non-trivial: at least one cycle.",
      rules=["C12.R1 no trigger -> nothing removed", "C12.R2 amount (fraction / down to CountSoftLimit*(1-f) within one entry)",
             "C12.R3 max rank(removed) <= min rank(kept) under the strategy, ranks from the harness access log", "C12.R4 cache_evict equals entries removed"],
-     probes=["cycle_without_trigger", "cycle_count_breach", "cycle_eviction_needed", "cycle_memory_limit_breach", "order_checked", "long_expired_entry_purged_in_eviction_cycle", "overlapping_serves_of_one_key"])
+     probes=["cycle_without_trigger", "cycle_count_breach", "cycle_eviction_needed", "cycle_memory_limit_breach", "quiet_cycle_count_breach", "order_checked", "long_expired_entry_purged_in_eviction_cycle", "overlapping_serves_of_one_key"])
 prop("C08", quick={"runs": 40000}, thorough={"runs": 100000000, "budget_s": 600},
      rule=BE_RULE + "2-16 client tasks issue 1-5 operations each over <= 4 keys (partly constructed hash collisions); in half of the runs the real "
      "janitor runs cleanup/eviction cycles concurrently. Histories (invoke/return event sequence numbers, batch operations expanded into one "
